@@ -44,7 +44,11 @@ def run(ctx):
                 addr = bytes(rng.getrandbits(8) for _ in range(4))
                 change = 'UP' if kind == 'STATUS_CHANGE' else 'NEW_NODE'
                 body = (F.body_event_status if kind == 'STATUS_CHANGE' else F.body_event_topology)(change, addr, 9042)
-                fr = F.response(v, -1, 'EVENT', body)
+                # every negative stream id is server-initiated (Cassandra uses -1; the header field is a signed byte / short)
+                esid = -1 if rng.random() < 0.6 else -rng.choice([2, 3, 127, 128] if v < 3 else [2, 3, 128, 129, 255, 256, 32767, 32768])
+                if esid != -1:
+                    ctx.count("event_frames_on_a_negative_stream_other_than_minus_one")
+                fr = F.response(v, esid, 'EVENT', body)
                 frames.append((-1, 'EVENT', (kind, change, addr), fr))
                 continue
             with conn.lock:
@@ -182,4 +186,5 @@ def run(ctx):
             return [rng.randrange(1, max(2, total)) for _ in range(k)]
         run_split(v, nfr, rng.random() < 0.5, cuts_fn, "random cuts")
     ctx.floor_distinct = 3000 if ctx.quick else 40000
-    ctx.floor_counters = {"frames_delivered_exactly": 5000, "splits_inside_a_header": 1000, "streams_with_all_single_cuts_enumerated": 8}
+    ctx.floor_counters = {"frames_delivered_exactly": 5000, "splits_inside_a_header": 1000, "streams_with_all_single_cuts_enumerated": 8,
+                          "event_frames_on_a_negative_stream_other_than_minus_one": 50}
